@@ -54,6 +54,12 @@ LevelInvariant ==
       IN NVal(v, st.res) + 2 ^ L * (Cnt(v, st.solo) + PairCnt(v, st.pairs))
                          + 2 ^ (L + 1) * (Cnt(v, st.nsolo) + PairCnt(v, st.npairs))
          = Cardinality({j \in 1 .. K : inp[j]})
+(* In the XAIG basis every pair of solo bits is consumed by the pairing loop and every later block puts at most
+   one bit back, so when control reaches the trailing full-adder / half-adder loops of the function (pcs "sum3",
+   "sum2") there is at most one solo bit: those loops are dead code there (they run in the AIG basis only).  The
+   mutation campaign's surviving mutants inside them are equivalent for exactly this reason. *)
+TrailingAddersDeadInXAIG ==
+  (mode = "sum" /\ st.basis = "XAIG" /\ st.pc \in {"sum3", "sum2"}) => Len(st.solo) <= 1
 BitLen(n) == IF n = 0 THEN 0 ELSE CHOOSE m \in 1 .. 10 : 2 ^ (m - 1) <= n /\ n < 2 ^ m
 MinimalBitsAndBound ==
   (mode = "sum" /\ st.pc = "done") =>
